@@ -300,9 +300,16 @@ class World:
         return False
 
     # -- (g) accessors -------------------------------------------------------------------
-    def check_accessors(self, tag):
+    def check_accessors(self, tag, probe=0):
         for g, L in ((self.G0, self.L0), (self.S, self.LS), (self.G1, self.L1)):
             try:
+                if L:
+                    # the first lookup after the edit goes to ONE generated position (full scans in a fixed order always
+                    # leave and find the container in the same access state)
+                    p = probe % len(L)
+                    if g[p] is not L[p]:
+                        self.fail("g-index", f"after {tag}: {g.name}[{p}] (first lookup after the edit) disagrees with model")
+                        continue
                 real = list(g)
                 ok = len(real) == len(L) and all(a is b for a, b in zip(real, L))
                 if not ok:
@@ -313,10 +320,21 @@ class World:
                 rev = list(reversed(g))
                 if len(rev) != len(L) or any(a is not b for a, b in zip(rev, reversed(L))):
                     self.fail("g-reversed", f"after {tag}: reversed({g.name}) disagrees with model")
-                for i in range(len(L)):
+                # scan order and final position vary with the probe (ascending / descending / rotated)
+                order = list(range(len(L)))
+                if L:
+                    r = (probe // 7) % len(L)
+                    order = order[r:] + order[:r]
+                    if (probe // 3) % 2:
+                        order.reverse()
+                for i in order:
                     if g[i] is not L[i] or g[i - len(L)] is not L[i]:
                         self.fail("g-index", f"after {tag}: {g.name}[{i}] disagrees with model")
                         break
+                if L and (probe // 5) % 2:
+                    q = (probe // 11) % len(L)
+                    if g[q] is not L[q]:
+                        self.fail("g-index", f"after {tag}: {g.name}[{q}] disagrees with model")
                 for n in L:
                     if n not in g:
                         self.fail("g-contains", f"after {tag}: {n.name} in {g.name} is False")
@@ -480,7 +498,7 @@ def _execute(case):
                     w.notify_insert(done, True)
             else:
                 raise Malformed(name)
-            w.check_accessors(f"op#{k} {op}")
+            w.check_accessors(f"op#{k} {op}", probe=sum(x for x in op if isinstance(x, int) and not isinstance(x, bool)) * 13 + k)
             if w.fails:
                 break
         # drain
